@@ -216,4 +216,8 @@ func runC16(c *Ctx) {
 		c.Fail("R4", "/backups", 0, "route not registered")
 	}
 	rebuildOnOpen(c, "R5")
+	cacheTilesPersistedAlways(c, "R5")
+	recoveryHeightAgreement(c, "R5")
+	c.Rule("R6", "a restore replaces the directory's content (old write-ahead logs are not kept)", 1)
+	restoreDropsOldLogs(c, "R6")
 }
